@@ -93,6 +93,18 @@ CLAIMED["C07"] = dict(
     note=NOTE_COMMON + "; Field[Region] and resample use concrete mesh geometry (symbolic box corners / values): floor/ceil of "
          "a symbolic corner over a symbolic cell size is beyond z3's nonlinear reach within the quick budget",
 )
+CLAIMED["C08"] = dict(
+    text="Every Field operator/method that returns a field on the same cells (unary, with constants, component access, norm, "
+         "orientation, complex parts, numpy ufuncs, derivatives, field-field binaries incl. dot/cross/angle/<<, depth-2 "
+         "compositions) is run with one symbolic validity bit per cell and operand: result mask == operand mask resp. "
+         "cell-wise AND is one unsat query per cell, operands' masks unchanged; selection/extraction/padding/resampling reuse "
+         "the C07 harnesses (validity moves with the same index map as the data), quarter-turn rotations are covered by C12's "
+         "harnesses, VTK/HDF5 round trips by the C16/C10 harnesses (imported once those properties are claimed); validity "
+         "setters (array, (*n,1) array, callable with a symbolic threshold, constants, None, 'norm' with the 1e-8 threshold as "
+         "an NRA obligation) never touch the values and yield Boolean masks; mask ownership (no shared memory, writes do "
+         "not leak, caller's array not adopted, non-Boolean masks converted) is decided on a native execution per operator.",
+    ref="DESIGN.md section 2 / C08",
+)
 PENDING_REASON = "check not built yet in this round (planned: DESIGN.md section 2); not claimed until it runs green"
 NA = {}
 
